@@ -79,12 +79,12 @@ CLAIMS = {
     text="The real SolveUnc.fsolve and FreqDirect.fsolve (uncoupled path) are executed on a fully symbolic 3-mode system [rigid, elastic, residual-flexibility] "
          "with symbolic complex forces and frequencies (SolveUnc: including 0 Hz in the middle of the frequency vector) for all 8 incrb subsets x rf_disp_only x "
          "m None/vector; every returned d, v, a entry is decided equal to the specification (dynamic-stiffness solution, v=iWd, a=-W^2 d, static rf rows, "
-         "rigid-body a=F/m with d, v switched by incrb and zero at 0 Hz) by an exact-rational 50-digit identity test of the symbolic outputs; the real solvepsd "
+         "rigid-body a=F/m with d, v switched by incrb and zero at 0 Hz) exactly, by sympy rational normal forms of the symbolic outputs (pi as an indeterminate); the real solvepsd "
          "(2 forces incl. a force that only feeds through, symbolic duf factors) equals sum_i PSD_i |H_i|^2 and rms^2 = trapezoidal area. Coupled paths "
          "(scipy eig/solve, pre_eig) are bounded float checks.",
-    note="Trusted: sympy/mpmath, symbolic shims. Sizes fixed (3 modes, 2-3 frequencies), values symbolic; identity decided numerically at 4 random rational points "
-         "with 50 digits (a non-zero rational function vanishing at all of them is not excluded in principle). Floats are exact complex numbers.",
-    technique="real functions executed on symbolic inputs (concolic shim) against dynamic-stiffness specification; exact-rational multi-point identity testing; bounded float checks",
+    note="Trusted: sympy, symbolic shims. Sizes fixed (3 modes, 2-3 frequencies), all values symbolic. Floats are exact complex numbers (conditioning not decided). "
+         "Coupled/pre_eig paths only bounded.",
+    technique="real functions executed on symbolic inputs (concolic shim) against the dynamic-stiffness specification; sympy rational normal forms; bounded float checks",
     category="proof"),
 }
 NOT_APPLICABLE = {}
